@@ -542,11 +542,8 @@ func offsetRules(p *core.Program, r *core.Report, e *engines) {
 			// range guard (R5.4) — no effect on the arithmetic
 		}
 	}
-	if encodedArg != nil {
-		if a, ok := env.Eval(encodedArg); ok {
-			offset = &a
-		}
-	}
+	_ = encodedArg
+	offset = encodedOffset(p, e, cinfo, patchFd.Body.List, env, 0)
 	if offset == nil || pparam == nil {
 		und("compiler.(compiler).patchJump/offset", p.Pos(patchFd.Pos()), "the encoded offset is not an affine expression of the buffer length and the placeholder position")
 	} else {
@@ -625,24 +622,7 @@ func offsetRules(p *core.Program, r *core.Report, e *engines) {
 	if ps := backFd.Type.Params; ps != nil && len(ps.List) == 1 && len(ps.List[0].Names) == 1 {
 		benv.Vars[cinfo.Defs[ps.List[0].Names[0]]] = eng.AffSym("T")
 	}
-	var boff *eng.Aff
-	for _, st := range backFd.Body.List {
-		if as, ok := st.(*ast.AssignStmt); ok && len(as.Lhs) == 1 && len(as.Rhs) == 1 {
-			if id, ok := as.Lhs[0].(*ast.Ident); ok {
-				if a, ok := benv.Eval(as.Rhs[0]); ok {
-					benv.Vars[objOf(cinfo, id)] = a
-				}
-			}
-		}
-	}
-	ast.Inspect(backFd.Body, func(n ast.Node) bool {
-		if c, ok := n.(*ast.CallExpr); ok && eng.CalleeOf(cinfo, c) == e.em.Encode && len(c.Args) == 1 {
-			if a, ok := benv.Eval(c.Args[0]); ok {
-				boff = &a
-			}
-		}
-		return true
-	})
+	boff := encodedOffset(p, e, cinfo, backFd.Body.List, benv, 0)
 	if boff == nil {
 		und("compiler.(compiler).calcBackwardJump/offset", p.Pos(backFd.Pos()), "the encoded offset is not an affine expression of the buffer length and the label")
 	} else {
@@ -666,6 +646,76 @@ func offsetRules(p *core.Program, r *core.Report, e *engines) {
 		}
 	}
 	r.Check(okCap && nCap > 0, rule, "compiler/loop labels are len(code)", "", fmt.Sprintf("%d label captures, each the current length of the code buffer (an instruction boundary)", nCap), "a label is captured from something other than the current length of the code buffer")
+}
+
+// encodedOffset: the affine value handed to the operand encoder by a statement list, in the
+// symbols of env; top-level definitions are followed, and a call of a plain function of the
+// package (an extracted "check and encode" helper) is entered with its parameters bound to the
+// affine values of the arguments (depth ≤ 2).
+func encodedOffset(p *core.Program, e *engines, info *types.Info, list []ast.Stmt, env *eng.AffEnv, depth int) *eng.Aff {
+	var out *eng.Aff
+	var visit func(n ast.Node) bool
+	visit = func(n ast.Node) bool {
+		c, ok := n.(*ast.CallExpr)
+		if !ok || out != nil {
+			return out == nil
+		}
+		fn := eng.CalleeOf(info, c)
+		if fn == nil {
+			return true
+		}
+		if fn == e.em.Encode && len(c.Args) == 1 {
+			if a, ok := env.Eval(c.Args[0]); ok {
+				out = &a
+			}
+			return false
+		}
+		if depth < 2 && e.em.Prims[fn] == "" && fn.Pkg() == p.Pkg("compiler").Types {
+			if _, fd := p.DeclOf(fn); fd != nil && fd.Body != nil && fd.Type.Params != nil {
+				sub := &eng.AffEnv{Info: info, Vars: map[types.Object]eng.Aff{}, Sym: env.Sym}
+				for k, v := range env.Vars {
+					sub.Vars[k] = v
+				}
+				i, okAll := 0, true
+				for _, f := range fd.Type.Params.List {
+					for _, nm := range f.Names {
+						if i < len(c.Args) {
+							if a, ok := env.Eval(c.Args[i]); ok {
+								sub.Vars[info.Defs[nm]] = a
+							} else {
+								okAll = false
+							}
+						}
+						i++
+					}
+				}
+				if okAll {
+					if a := encodedOffset(p, e, info, fd.Body.List, sub, depth+1); a != nil {
+						out = a
+						return false
+					}
+				}
+			}
+		}
+		return true
+	}
+	for _, st := range list {
+		if out != nil {
+			break
+		}
+		if as, ok := st.(*ast.AssignStmt); ok && len(as.Lhs) == 1 && len(as.Rhs) == 1 {
+			if id, ok := as.Lhs[0].(*ast.Ident); ok {
+				if _, isCall := eng.Unparen(as.Rhs[0]).(*ast.CallExpr); !isCall {
+					if a, ok := env.Eval(as.Rhs[0]); ok {
+						env.Vars[objOf(info, id)] = a
+						continue
+					}
+				}
+			}
+		}
+		ast.Inspect(st, visit)
+	}
+	return out
 }
 
 // argBound: obj is a local assigned (only) from the operand reader inside the clause.
